@@ -13,10 +13,14 @@ RULE = ('JSON TEXT fed to serde_json::from_str::<Loop3D> / ::<Polygon3D> (and to
         '1e3), and malformed documents of every kind (wrong arity, non-numeric elements of 8 sorts, nested arrays, objects, strings, booleans, '
         'numbers, null, too few points, collinear, coincident, non-coplanar, self-crossing, 1e999 / huge / subnormal / big-integer numbers, '
         'syntax errors, unusual spellings), the corpus documents "[1,2]" and "null" first; Point3D / Vector3D round trips (derived impls, no model) '
-        'over special and random floats; vertices compared to 4 ulp (float-text precision; the reader is not correctly rounded: drift counted in the buckets); non-trivial = any document but the Point3D/Vector3D ones; distinct = distinct text')
+        'over special and random floats; vertices compared to 4 ulp (float-text precision; the reader is not correctly rounded: drift counted in the buckets); non-trivial = any document but the Point3D/Vector3D ones; distinct = distinct text; thorough tier: also 2000 documents of the f32 build (correspondence only, no oracle)')
 ASSUMPTIONS = [
     'Coq 8.16.1 kernel + vm_compute; theorems at the level of serde_json::Value, valid for every number instance of the model',
     'model = code: the Deserialize / Serialize impls of Loop3D and Polygon3D (triple-reading loop, push, close, From<Loop3D>) checked on outcome class and loop state bit for bit',
+    'f32 build (thorough tier): the same runner text instantiated on the binary32 instance (module C20f32 of Run/C20.v on NumF32fast, proved equal to the '
+    'Flocq-rounded NumF32 in Run/FastNum32Proof.v) against the harness built with --features float, bit for bit; the f32 generator draws 75% coordinate planes, offsets to 8 '
+    '(finding F15: the absolute 1e-7 coplanarity tolerance refuses oblique f32 outlines; refusals / Err / panic outcomes are reproduced by the model); the numbers of the Value tree are `as_f64() as Float`, the cast the deserialiser of the crate applies itself; CORRESPONDENCE ONLY: the '
+    'exact-rational oracle does not judge f32 cases',
     'serde_json text layer (number printing / parsing, syntax) and the derived impls of Point3D / Vector3D are trusted, exercised by the harness and checked by the oracle',
 ]
 THEOREMS = ['C20_de_loop_never_panics', 'C20_de_poly_never_panics', 'C20_non_array_is_error', 'C20_bad_array_is_error', 'C20_accepted_array_shape',
@@ -25,7 +29,12 @@ THEOREMS = ['C20_de_loop_never_panics', 'C20_de_poly_never_panics', 'C20_non_arr
 def streams(tier):
     if tier == 'quick': return [Stream('C20', 1200)]
     if tier == 'search': return [Stream('C20', 3000)]
-    return [Stream('C20', 6000), Stream('C20', 2000, release=True)]
+    # f32 build (thorough tier): correspondence only, the oracle does not judge f32 cases
+    return [Stream('C20', 6000), Stream('C20', 2000, release=True), Stream('C20', 2000, f32=True)]
+
+def is_f32(c, st=None):
+    """cases of the f32 build carry "f32": true (harness/src/polys.rs); the stream flag says the same"""
+    return bool(c.get('f32') or (st is not None and getattr(st, 'f32', False)))
 
 def ulps(a, b):
     """distance in units in the last place between two finite doubles (0 for +0 vs -0)"""
@@ -50,6 +59,9 @@ def drift(c, st):
 
 def classify(c, st):
     k = c['kind']
+    if is_f32(c, st):
+        key = ('pv' if k in (7, 8) else 'doc', c['text'])
+        return key, k in (7, 8), 'f32:' + ('pv' if k in (7, 8) else 'loop-rt:lo%s' % c.get('lo') if k == 1 else 'poly-rt:po%s' % c.get('po') if k == 2 else c['note'].replace('corpus:', 'corpus-').split(':')[0])
     if k in (7, 8): return ('pv', c['text']), True, 'pv:' + c['note']
     if k in (1, 2):
         d = drift(c, st)
@@ -137,6 +149,8 @@ def area_rounding(*loops):
     return 16 * 2.0 ** -52 * t
 
 def oracle(c, st):
+    # f32 build: correspondence only (ulps / drift / area_rounding below work on binary64 patterns)
+    if is_f32(c, st): return None
     k = c['kind']
     if k in (7, 8):
         if c['o'] == 99 or c.get('o2') == 99: return ('C20:panic', 'Point3D/Vector3D deserialisation panicked on %s' % c['text'][:80])
